@@ -136,13 +136,26 @@ pub fn run_case(ctx: &mut Ctx, c: &Case<'_>, nontrivial: bool) -> Verdict {
                 (Res::Err, Res::Out(_)) => format!("{}:renders-where-reference-fails", c.family),
                 _ => format!("{}:output-differs-from-reference", c.family),
             };
+            let diff = match (m, g) {
+                (Res::Out(a), Res::Out(b)) => {
+                    let (ca, cb): (Vec<char>, Vec<char>) = (a.chars().collect(), b.chars().collect());
+                    let k = ca.iter().zip(cb.iter()).take_while(|(x, y)| x == y).count();
+                    let lo = k.saturating_sub(70);
+                    format!(
+                        " FIRST DIFFERENCE at char {k}: reference ...{:?}... real ...{:?}...",
+                        ca[lo..(k + 50).min(ca.len())].iter().collect::<String>(),
+                        cb[lo..(k + 50).min(cb.len())].iter().collect::<String>()
+                    )
+                }
+                _ => String::new(),
+            };
             let err_text = match &out {
                 Out::Err(e) => format!(" (error: {e})"),
                 _ => String::new(),
             };
             ctx.violation(
                 &key,
-                &format!("program {main_src:?} data {} partials {psrc:?}: real = {g:?}{err_text}, reference = {m:?}", c.data.dump()),
+                &format!("{diff} | program {main_src:?} data {} partials {psrc:?}: real = {g:?}{err_text}, reference = {m:?}", c.data.dump()),
                 || {
                     let mut j = replay();
                     j["expected"] = json!(format!("{m:?}"));
